@@ -64,6 +64,37 @@ func (r *Rand) near2() *big.Int {
 	return v
 }
 
+// wordEdge: a coefficient of keep random digits followed by a block of k digits (k = 18, 19, 20, 38, 39: the decimal
+// sizes around 2^63, 2^64, 2^127, 2^128) whose value sits at a machine-word or half-way boundary - what a rounding
+// step that discards exactly those digits, or an aligned comparison, sees as its remainder.  Returns the block size.
+func (r *Rand) wordEdge(keep int) (*big.Int, int) {
+	k := []int{18, 19, 19, 20, 38, 39}[r.Intn(6)]
+	pk := new(big.Int).Exp(big.NewInt(10), big.NewInt(int64(k)), nil)
+	var blk *big.Int
+	switch r.Intn(6) {
+	case 0:
+		blk = r.near2()
+	case 1: // just below the block's capacity: 99..9x
+		blk = new(big.Int).Sub(pk, big.NewInt(int64(r.between(1, 9))))
+	case 2: // about half
+		blk = new(big.Int).Quo(pk, big.NewInt(2))
+		blk.Add(blk, big.NewInt(int64(r.between(-2, 2))))
+	case 3: // above 2^63 / 10^19 = 0.922..: the doubled remainder overflows a word
+		blk = new(big.Int).Mul(pk, big.NewInt(int64(r.between(923, 999))))
+		blk.Quo(blk, big.NewInt(1000))
+		blk.Add(blk, big.NewInt(int64(r.Intn(1000))))
+	case 4:
+		blk = new(big.Int).Lsh(big.NewInt(1), []uint{63, 64, 127, 128}[r.Intn(4)])
+		blk.Sub(blk, big.NewInt(int64(r.between(0, 3))))
+	default:
+		blk = r.digits(k)
+	}
+	blk.Mod(blk, pk)
+	head := r.digits(keep)
+	head.Mul(head, pk)
+	return head.Add(head, blk), k
+}
+
 func bigInt(v int64) *big.Int { return big.NewInt(v) }
 
 type bigIntT = big.Int
